@@ -208,7 +208,8 @@ def PathObj.add (p : PathObj) (seg : Str) : PathObj := (PathObj.new p.original).
 
 def endsWith (s suffix : Str) : Bool := suffix.length ≤ s.length ∧ s.drop (s.length - suffix.length) = suffix
 
-/-- `pop()`; `ypath 30` is "Cannot pop when there are no segments to pop from" -/
+/-- `pop()`; `ypath 30` is "Cannot pop when there are no segments to pop from".  The last branch is the
+repair 8d0a378 (before it the text was left as it was when none of the three `endswith` tests matched). -/
 def PathObj.pop (p : PathObj) : Except PErr (Seg × PathObj) :=
   match p.unescaped with
   | .error e => .error e
@@ -225,7 +226,10 @@ def PathObj.pop (p : PathObj) : Except PErr (Seg × PathObj) :=
         .ok (last, p.setOriginal (now.take (now.length - removable.length)))
       else if s = .fslash ∧ endsWith now (removable.drop 1) then
         .ok (last, p.setOriginal (now.take (now.length + 1 - removable.length)))
-      else .ok (last, p)
+      else
+        -- fix 8d0a378: the last segment is not spelled the way it is printed; the text is rebuilt
+        -- from the remaining (unescaped) segments
+        .ok (last, p.setOriginal (render s.isFslash u.dropLast))
 
 def startsWith (s pre : Str) : Bool := s.take pre.length = pre
 
